@@ -19,7 +19,9 @@ RULE = ('Hypothesis-generated histories over one root ResourceMap: set(path, val
         '(extensions, paths through handles, siblings): m[path], chained m[a][b][c] and m.get(path)() denote the '
         'identical resource, get default <=> [] KeyError, handle xor map per name, and every reachable node has '
         'parent/key back-links (walk through public .maps/.handles); after clear(): map empty in all layers, '
-        'former direct children detached, map still attached to its own parent. Non-trivial = a composite-key '
+        'former direct children detached, map still attached to its own parent. '
+        'In ~20% of the cases a push_layer pushes 17-130 layers, re-assigning the handles of the map now and then while the first half piles up. '
+        'Non-trivial = a composite-key '
         'assignment creating >= 1 intermediate map, or an assignment replacing a subtree/handle by the other '
         'kind, or a clear of a map holding layered handles or sub-maps. Distinct = sha1 of canonical JSON.')
 ASSUMPTIONS = [
